@@ -40,6 +40,26 @@ def gen_case(rng, k):
             else:
                 inc = rng.choice(["nowhere.idl", "../zz/q.idl"])   # unresolvable
             files[rel]["includes"].append(inc)
+    if k % 4 == 1:
+        # the same relative spelling in files of different directories names different files:
+        # a spelling with a directory part resolves against the including file, every time
+        nm = rng.choice(NAMES)
+        d1, d2 = rng.sample(DIRS, 2)
+        for d in (d1, d2):
+            files.setdefault("%s/%s" % (d, nm), {"includes": [], "garbage": False})
+            hosts = [r_ for r_ in files if os.path.dirname(r_) == d and os.path.basename(r_) != nm]
+            if not hosts:
+                hosts = ["%s/%s" % (d, rng.choice([x for x in NAMES if x != nm]))]
+                files.setdefault(hosts[0], {"includes": [], "garbage": False})
+            files[rng.choice(hosts)]["includes"].append("./" + nm)
+        # make both hosts reachable from the main file
+        for d in (d1, d2):
+            for r_ in sorted(files):
+                if os.path.dirname(r_) == d and ("./" + nm) in files[r_]["includes"]:
+                    rel = os.path.relpath(r_, "p")
+                    files["p/main.idl"]["includes"].append(rel if "/" in rel else "./" + rel)
+                    break
+        rels = sorted(files)
     if rng.random() < 0.08:
         files[rng.choice(rels)]["garbage"] = True
     idirs = [d for d in ["i1", "i2", "p/sub"] if rng.random() < 0.6]
